@@ -35,3 +35,227 @@ Theorem serialize_depends_on_view_only :
   forall (P B P' B' : Type) (c : mol P B) (c' : mol P' B'), wfg c -> SameView c c' -> serialize c = serialize c'.
 Proof. exact (@SerializeProofs.serialize_view). Qed.
 Print Assumptions serialize_depends_on_view_only.
+
+(* ------------------------------------------------------------------------------------------------ *)
+(* C01 on the level of molfile descriptions (Proofs/Descriptions.v).
+   Vocabulary as in C06 (R3 = V3000Render, R2 = V2000Render):
+     M : R3.molM / R2.mol2         the molecule a file states (atom lines / entries, bond lines by the
+                                   positions they join); the index numbers written in a V3000 file are
+                                   rendering choices (ch), so is everything else in the file;
+     R3.file_text eol 0 lines      the text of the file; V2000.read_molfile: the entry point for both
+                                   formats;
+     ident3 / ident2               identity data of an atom line (C06_ident3_spec, NonIdentity.ident2);
+     pi : nat -> nat               where the entry at a position (0-based) of the first description is
+                                   found in the second one.                                           *)
+From Coq Require Import String List.
+Require Import Text Molfile.
+Require V2000 WriterProofs RefCanon V3000Render V2000Render NonIdentity Descriptions.
+Import ListNotations NonIdentity Descriptions.
+
+(* 1. Any two texts.  If both are read and the graphs read describe the same molecule (SameMol f: any
+      renaming f of the atoms, any listing orders, any orientation of the bonds), the strings are equal.
+      No well-formedness hypothesis: every graph the reader returns is a simple graph without stored
+      zeros (ReadersNoZero.read_molfile_wfg / read_molfile_nozero). *)
+Theorem C01_tucan_descriptions :
+  forall canon, H1 canon -> H2 canon ->
+  forall (f : N -> N) (s s' : text) g g',
+  V2000.read_molfile s = ok g -> V2000.read_molfile s' = ok g' ->
+  SameMol f g g' -> tucan canon g = tucan canon g'.
+Proof. exact (@Descriptions.tucan_descriptions). Qed.
+Print Assumptions C01_tucan_descriptions.
+
+Theorem C01_tucan_tokens_descriptions :
+  forall canon, H1 canon -> H2 canon ->
+  forall (f : N -> N) (s s' : text) g g',
+  V2000.read_molfile s = ok g -> V2000.read_molfile s' = ok g' ->
+  SameMol f g g' -> tucan_tokens canon g = tucan_tokens canon g'.
+Proof. exact (@Descriptions.tucan_tokens_descriptions). Qed.
+Print Assumptions C01_tucan_tokens_descriptions.
+
+(* 2. V3000 files.  Renumbered3000 pi M M', spelled out: the atom blocks have the same length n; pi maps
+      the positions 0 .. n-1 below n and is injective on them (hence a permutation of them); the entry
+      at position i of M and the entry at position pi i of M' are both star atoms, or both atoms with
+      the same ident3; the bonded position pairs of M, moved by pi, are those of M', as a set of
+      unordered pairs.  Free: the index numbers of the lines (ch, ch'), charges, coordinate tokens,
+      bond types, number / order / direction / repetition of bond lines. *)
+Theorem C01_Renumbered3000_spec : forall (pi : nat -> nat) (M M' : R3.molM),
+  Renumbered3000 pi M M' <->
+  let n := length (R3.m_entries M) in
+  (length (R3.m_entries M') = n /\
+   (forall i, i < n -> pi i < n) /\
+   (forall i j, i < n -> j < n -> pi i = pi j -> i = j) /\
+   (forall i, i < n -> option_map (option_map ident3) (nth_error (R3.m_entries M') (pi i))
+                       = option_map (option_map ident3) (nth_error (R3.m_entries M) i))) /\
+  (forall u v : nat,
+     (In (u, v) (map (fun k => (pi (fst k), pi (snd k))) (flat_map R3.bond_keys (R3.m_bonds M))) \/
+      In (v, u) (map (fun k => (pi (fst k), pi (snd k))) (flat_map R3.bond_keys (R3.m_bonds M)))) <->
+     (In (u, v) (flat_map R3.bond_keys (R3.m_bonds M')) \/ In (v, u) (flat_map R3.bond_keys (R3.m_bonds M')))).
+Proof. exact (@Descriptions.Renumbered3000_spec). Qed.
+Print Assumptions C01_Renumbered3000_spec.
+
+Theorem C01_tucan_v3000_renumbered :
+  forall canon, H1 canon -> H2 canon ->
+  forall (pi : nat -> nat) (M M' : R3.molM) (ch ch' : R3.choices) (eol eol' : nat -> bool),
+  R3.okM M -> R3.okM M' -> Renumbered3000 pi M M' ->
+  R3.okch M ch -> R3.okch_text ch -> R3.okch M' ch' -> R3.okch_text ch' ->
+  forall g g',
+  V2000.read_molfile (R3.file_text eol 0 (R3.render3000 M ch)) = ok g ->
+  V2000.read_molfile (R3.file_text eol' 0 (R3.render3000 M' ch')) = ok g' ->
+  tucan canon g = tucan canon g'.
+Proof. exact (@Descriptions.tucan_v3000_renumbered). Qed.
+Print Assumptions C01_tucan_v3000_renumbered.
+
+(* both texts are read: the statement above is not about two failures *)
+Theorem C01_tucan_v3000_renumbered_read :
+  forall canon, H1 canon -> H2 canon ->
+  forall (pi : nat -> nat) (M M' : R3.molM) (ch ch' : R3.choices) (eol eol' : nat -> bool),
+  R3.okM M -> R3.okM M' -> Renumbered3000 pi M M' ->
+  R3.okch M ch -> R3.okch_text ch -> R3.okch M' ch' -> R3.okch_text ch' ->
+  exists g g',
+  V2000.read_molfile (R3.file_text eol 0 (R3.render3000 M ch)) = ok g /\
+  V2000.read_molfile (R3.file_text eol' 0 (R3.render3000 M' ch')) = ok g' /\
+  tucan canon g = tucan canon g'.
+Proof. exact (@Descriptions.tucan_v3000_renumbered_read). Qed.
+Print Assumptions C01_tucan_v3000_renumbered_read.
+
+(* the graphs read from the two files are the same molecule under the renaming of node names pi induces *)
+Theorem C01_graph_of_renumbered : forall (pi : nat -> nat) (M M' : R3.molM),
+  R3.okM M -> R3.okM M' -> Renumbered3000 pi M M' ->
+  SameMol (fren pi (es3 M) (es3 M')) (R3.graph_of M) (R3.graph_of M').
+Proof. exact (@Descriptions.graph_of_renumbered). Qed.
+Print Assumptions C01_graph_of_renumbered.
+
+(* the same order of atom lines (C06: IdentEq3000) is the case pi = identity *)
+Theorem C01_IdentEq3000_Renumbered : forall M M' : R3.molM, IdentEq3000 M M' -> Renumbered3000 (fun i => i) M M'.
+Proof. exact (@Descriptions.IdentEq3000_Renumbered). Qed.
+Print Assumptions C01_IdentEq3000_Renumbered.
+
+(* 3. V2000 files.  Renumbered2000 pi M M': atom line i of M (counted from 0) is atom line pi i of M'
+      (same ident2: element, effective mass, radical); the atom numbers on the bond lines of M, moved by
+      pi, give the bonded pairs of M' as a set of unordered pairs.  Where the M  CHG / RAD / ISO lines go
+      and how they are grouped is part of ch, ch' (okfile2000). *)
+Theorem C01_Renumbered2000_spec : forall (pi : nat -> nat) (M M' : R2.mol2),
+  Renumbered2000 pi M M' <->
+  let n := length (R2.m_atoms M) in
+  (length (R2.m_atoms M') = n /\
+   (forall i, i < n -> pi i < n) /\
+   (forall i j, i < n -> j < n -> pi i = pi j -> i = j) /\
+   (forall i, i < n -> option_map ident2 (nth_error (R2.m_atoms M') (pi i)) = option_map ident2 (nth_error (R2.m_atoms M) i))) /\
+  (forall u v : nat,
+     let num (k : Z * Z) := (Z.to_nat (fst k - 1), Z.to_nat (snd k - 1)) in
+     (In (u, v) (map (fun k => (pi (fst k), pi (snd k))) (map num (map fst (R2.m_bonds M)))) \/
+      In (v, u) (map (fun k => (pi (fst k), pi (snd k))) (map num (map fst (R2.m_bonds M))))) <->
+     (In (u, v) (map num (map fst (R2.m_bonds M'))) \/ In (v, u) (map num (map fst (R2.m_bonds M'))))).
+Proof. exact (@Descriptions.Renumbered2000_spec). Qed.
+Print Assumptions C01_Renumbered2000_spec.
+
+Theorem C01_tucan_v2000_renumbered :
+  forall canon, H1 canon -> H2 canon ->
+  forall (pi : nat -> nat) (M M' : R2.mol2) (ch ch' : R2.choices) (eol eol' : nat -> bool),
+  okfile2000 M ch -> okfile2000 M' ch' -> Renumbered2000 pi M M' ->
+  forall g g',
+  V2000.read_molfile (R3.file_text eol 0 (R2.render2000 M ch)) = ok g ->
+  V2000.read_molfile (R3.file_text eol' 0 (R2.render2000 M' ch')) = ok g' ->
+  tucan canon g = tucan canon g'.
+Proof. exact (@Descriptions.tucan_v2000_renumbered). Qed.
+Print Assumptions C01_tucan_v2000_renumbered.
+
+Theorem C01_tucan_v2000_renumbered_read :
+  forall canon, H1 canon -> H2 canon ->
+  forall (pi : nat -> nat) (M M' : R2.mol2) (ch ch' : R2.choices) (eol eol' : nat -> bool),
+  okfile2000 M ch -> okfile2000 M' ch' -> Renumbered2000 pi M M' ->
+  exists g g',
+  V2000.read_molfile (R3.file_text eol 0 (R2.render2000 M ch)) = ok g /\
+  V2000.read_molfile (R3.file_text eol' 0 (R2.render2000 M' ch')) = ok g' /\
+  tucan canon g = tucan canon g'.
+Proof. exact (@Descriptions.tucan_v2000_renumbered_read). Qed.
+Print Assumptions C01_tucan_v2000_renumbered_read.
+
+Theorem C01_IdentEq2000_Renumbered : forall M M' : R2.mol2, IdentEq2000 M M' -> Renumbered2000 (fun i => i) M M'.
+Proof. exact (@Descriptions.IdentEq2000_Renumbered). Qed.
+Print Assumptions C01_IdentEq2000_Renumbered.
+
+(* 4. A V2000 file against a renumbered V3000 file: atom line i of M2 is the entry at position pi i of
+      the atom block of M3 (which has no star atoms, then). *)
+Theorem C01_Renumbered23_spec : forall (pi : nat -> nat) (M2 : R2.mol2) (M3 : R3.molM),
+  Renumbered23 pi M2 M3 <->
+  let n := length (R2.m_atoms M2) in
+  (length (R3.m_entries M3) = n /\
+   (forall i, i < n -> pi i < n) /\
+   (forall i j, i < n -> j < n -> pi i = pi j -> i = j) /\
+   (forall i, i < n -> option_map (option_map ident3) (nth_error (R3.m_entries M3) (pi i))
+                       = option_map (fun a => Some (ident2 a)) (nth_error (R2.m_atoms M2) i))) /\
+  (forall u v : nat,
+     let num (k : Z * Z) := (Z.to_nat (fst k - 1), Z.to_nat (snd k - 1)) in
+     (In (u, v) (map (fun k => (pi (fst k), pi (snd k))) (map num (map fst (R2.m_bonds M2)))) \/
+      In (v, u) (map (fun k => (pi (fst k), pi (snd k))) (map num (map fst (R2.m_bonds M2))))) <->
+     (In (u, v) (flat_map R3.bond_keys (R3.m_bonds M3)) \/ In (v, u) (flat_map R3.bond_keys (R3.m_bonds M3)))).
+Proof. exact (@Descriptions.Renumbered23_spec). Qed.
+Print Assumptions C01_Renumbered23_spec.
+
+Theorem C01_tucan_v2000_v3000_renumbered :
+  forall canon, H1 canon -> H2 canon ->
+  forall (pi : nat -> nat) (M2 : R2.mol2) (ch2 : R2.choices) (M3 : R3.molM) (ch3 : R3.choices) (eol eol' : nat -> bool),
+  okfile2000 M2 ch2 -> R3.okM M3 -> R3.okch M3 ch3 -> R3.okch_text ch3 ->
+  Renumbered23 pi M2 M3 ->
+  forall g g',
+  V2000.read_molfile (R3.file_text eol 0 (R2.render2000 M2 ch2)) = ok g ->
+  V2000.read_molfile (R3.file_text eol' 0 (R3.render3000 M3 ch3)) = ok g' ->
+  tucan canon g = tucan canon g'.
+Proof. exact (@Descriptions.tucan_v2000_v3000_renumbered). Qed.
+Print Assumptions C01_tucan_v2000_v3000_renumbered.
+
+(* 5. Non-vacuity: 13C-formate.  formA / chA, form2 / ch2: the files of NonIdentity.Example (C06);
+      formP: the atom block of formA under the 3-cycle pi3 of the positions, form2P: the atom lines of
+      form2 rotated (pi4).  All hypotheses hold for the reference oracle (RefCanon), and the executable
+      model, run on the four texts, returns one and the same non-trivial string. *)
+Theorem C01_example_hypotheses :
+  R3.okM Example.formA /\ R3.okM Descriptions.Example.formP /\
+  Renumbered3000 Descriptions.Example.pi3 Example.formA Descriptions.Example.formP /\
+  R3.okch Example.formA Example.chA /\ R3.okch_text Example.chA /\
+  R3.okch Descriptions.Example.formP Example.chB /\ R3.okch_text Example.chB /\
+  okfile2000 Example.form2 Example.ch2 /\ okfile2000 Descriptions.Example.form2P Descriptions.Example.ch2P /\
+  Renumbered2000 Descriptions.Example.pi4 Example.form2 Descriptions.Example.form2P /\
+  Renumbered23 Descriptions.Example.pi23 Descriptions.Example.form2P Example.formA.
+Proof. exact Descriptions.Example.all_hypotheses. Qed.
+Print Assumptions C01_example_hypotheses.
+
+Theorem C01_example_oracle : H1 RefCanon.ref_canon /\ H2 RefCanon.ref_canon.
+Proof. exact (conj RefCanon.ref_canon_H1 RefCanon.ref_canon_H2). Qed.
+Print Assumptions C01_example_oracle.
+
+Theorem C01_example_runs :
+  let run (s : text) := match V2000.read_molfile s with inr g => tucan RefCanon.ref_canon g | inl _ => None end in
+  run (R3.file_text Example.crlf 0 (R3.render3000 Example.formA Example.chA)) = Some (t "CHO2/(1-2)(2-3)(2-4)/(2:mass=13)") /\
+  run (R3.file_text Example.lf 0 (R3.render3000 Descriptions.Example.formP Example.chB)) = Some (t "CHO2/(1-2)(2-3)(2-4)/(2:mass=13)") /\
+  run (R3.file_text Example.mixed 0 (R2.render2000 Example.form2 Example.ch2)) = Some (t "CHO2/(1-2)(2-3)(2-4)/(2:mass=13)") /\
+  run (R3.file_text Example.lf 0 (R2.render2000 Descriptions.Example.form2P Descriptions.Example.ch2P)) = Some (t "CHO2/(1-2)(2-3)(2-4)/(2:mass=13)").
+Proof. exact Descriptions.Example.renumbered_runs_computed. Qed.
+Print Assumptions C01_example_runs.
+
+(* the renumbered files, line by line *)
+Theorem C01_example_fileP : R3.render3000 Descriptions.Example.formP Example.chB =
+  [t ""; t ""; t ""; t "  0  0  0  0  0  0  0  0  0  0999 V3000";
+   t "M  V30 BEGIN CTAB"; t "M  V30 COUNTS 4 3"; t "M  V30 BEGIN ATOM";
+   t "M  V30 1 O 3.80 5.70 0.00 0 CHG=0 MASS=0";
+   t "M  V30 2 C 5.00 5.00 0.00 0 CHG=0 MASS=13";
+   t "M  V30 3 O 6.20 5.70 0.00 0 CHG=-1 MASS=0";
+   t "M  V30 4 H 5.00 3.90 0.00 0 CHG=0 MASS=0";
+   t "M  V30 END ATOM"; t "M  V30 BEGIN BOND";
+   t "M  V30 1 1 4 2"; t "M  V30 2 2 2 1"; t "M  V30 3 1 3 2";
+   t "M  V30 END BOND"; t "M  V30 END CTAB"; t "M  END"]%list.
+Proof. exact Descriptions.Example.fileP_lines. Qed.
+Print Assumptions C01_example_fileP.
+
+Theorem C01_example_file2P : R2.render2000 Descriptions.Example.form2P Descriptions.Example.ch2P =
+  [t "formate, renumbered"; t ""; t "";
+   t "  4  3                           V2000";
+   t "    0.0000   -1.1000    0.0000 H   0     0  0  0  0  0  0  0  0  0  0";
+   t "    0.0000    0.0000    0.0000 C   0     0  0  0  0  0  0  0  0  0  0";
+   t "    1.2000    0.7000    0.0000 O   0     0  0  0  0  0  0  0  0  0  0";
+   t "   -1.2000    0.7000    0.0000 O   0     0  0  0  0  0  0  0  0  0  0";
+   t "  2  4  2"; t "  2  1  1"; t "  3  2  1";
+   t "M  ISO  1   2  13"; t "M  STY  1   1 SUP"; t "M  CHG  1   3  -1";
+   t "M  END"]%list.
+Proof. exact Descriptions.Example.file2P_lines. Qed.
+Print Assumptions C01_example_file2P.
